@@ -192,15 +192,26 @@ def check_call(hist, op, bound=2):
         before = w.values()
         out = w.call(op, s)
         return out, before, w.values()
-    for x in explore(run, bound=bound, cap=3000, state=st):
+    sat_all = all(len(v) > 0 for v in exp.values())
+    seen_pref = set()
+    for bnd in (bound, bound + 1, bound + 2, None):
+      # raise the bound (up to the complete tree) while solutions are missing:
+      # a multi-range domain needs an extra deviation (range pick) per field
+      if bnd != bound and (viol or st.get("capped") or not sat_all or
+                           not any(exp[p] - reached[p] for p in exp)):
+          break
+      for x in explore(run, bound=bnd, cap=6000, state=st):
         out, before, after = x.obs
+        k_ = tuple(x.choices)
+        if k_ in seen_pref:
+            continue
+        seen_pref.add(k_)
         cnt["executions"] += 1
         cnt["env_transitions"] += len(x.trace)
-        sat = all(len(v) > 0 for v in exp.values())
         if out[0] != "ok":
-            if sat or out[0] != "solvefail":
+            if sat_all or out[0] != "solvefail":
                 viol.append({"subcheck": "unexpected_failure", "case": {"hist": hist, "op": op, "choices": x.choices},
-                             "observed": list(out), "expected": "returns" if sat else "SolveFailure",
+                             "observed": list(out), "expected": "returns" if sat_all else "SolveFailure",
                              "what": "%r after %r ended with %r" % (op, hist, out)})
             continue
         for p, v in after.items():
